@@ -3,6 +3,7 @@
 import os, sys, collections, concurrent.futures
 sys.path.insert(0, os.path.dirname(os.path.dirname(os.path.abspath(__file__))))
 from vlib import *
+import fuel_table
 
 BIG = 2**40
 EXTREMES = [2**31, 2**32, 2**62, 2**63 - 1, 2**63, 2**63 + 1, 2**64 - 2, 2**64 - 1]
@@ -199,6 +200,206 @@ def literal_property(info, rows):
     return bad, wrapped
 
 
+
+# ------------------------------------------------------------------------------------------
+# cost-table part: fuel_for_instruction as a generated Gallina table
+# ------------------------------------------------------------------------------------------
+CONTROL = {"Jump", "JumpIfFalse", "JumpIfFalseOrPop", "JumpIfTrueOrPop", "Iterate", "PushLoop", "Include", "FastSuper", "FastRecurse",
+           "LoadBlocks", "BuildMacro", "Return", "Enclose", "GetClosure"}
+NUMS = ["1", "n", "m", "k", "3.5", "items[0]", "d.x", "items|length", "-n", "(n, m)|length"]
+STRS = ["'x'", "s", "d['y']", "d.y", "n|string", "s.upper()", "s|upper", "s|replace('a', 'b')", "items|join(',')", "s|title", "s[:2]"]
+SEQS = ["items", "[n, m]", "items[1:]", "range(n)|list", "[*items, *items]", "(n, m)", "[range][0](2)|list", "range(*[1, 3])|list", "items|map('string')|list"]
+MISC = ["{'a': n}", "dict(a=n)", "dict(a=1, **d)", "none", "true", "missing", "missing|default(1)", "1 < n < 5", "n >= m", "n <= m", "n != m", "s == 'x'",
+        "n in items", "n is odd", "s is string", "missing is defined", "items is sequence", "n is divisibleby(2)", "m is eq(1)", "not flag"]
+
+
+def sl_num(rng, depth=0):
+    if depth > 2 or rng.below(3) == 0:
+        return rng.choice(NUMS)
+    return "(%s %s %s)" % (sl_num(rng, depth + 1), rng.choice(["+", "-", "*", "//", "%", "/", "**"]), rng.choice(["1", "2", "n + 1", "3"]))
+
+
+def sl_expr(rng, depth=0):
+    r = rng.below(10)
+    if r < 3:
+        return sl_num(rng)
+    if r < 5:
+        return "%s ~ %s" % (rng.choice(STRS), rng.choice(STRS + NUMS))
+    if r < 6:
+        return "%s|%s" % (rng.choice(SEQS), rng.choice(["length", "first", "list", "join('-')", "last"]))
+    if r < 7:
+        return "%s|%s" % (rng.choice(STRS), rng.choice(["upper", "length", "trim", "e", "safe", "string"]))
+    if r < 8:
+        return "%s %s %s" % (sl_num(rng, 2), rng.choice(["==", "<", ">", ">=", "<=", "!="]), sl_num(rng, 2))
+    if r < 9:
+        return rng.choice(SEQS)
+    return rng.choice(MISC)
+
+
+def sl_body(rng, depth, blocks):
+    out = []
+    for _ in range(1 + rng.below(4)):
+        r = rng.below(12)
+        if r < 3:
+            out.append(rng.choice(["text ", "<b>", "\n", "{{ '{{' }}"]))
+        elif r < 6:
+            out.append("{{ %s }}" % sl_expr(rng))
+        elif r < 7:
+            out.append("{%% set v%d = %s %%}" % (rng.below(3), sl_expr(rng)))
+        elif depth < 3 and r < 8:
+            out.append("{%% with a = %s %%}%s{%% endwith %%}" % (sl_expr(rng), sl_body(rng, depth + 1, blocks)))
+        elif depth < 3 and r < 9:
+            out.append("{%% autoescape %s %%}%s{%% endautoescape %%}" % (rng.choice(["true", "false", "'html'"]), sl_body(rng, depth + 1, blocks)))
+        elif depth < 3 and r < 10:
+            out.append("{%% filter %s %%}%s{%% endfilter %%}" % (rng.choice(["upper", "trim", "e"]), sl_body(rng, depth + 1, blocks)))
+        elif depth < 3 and r < 11:
+            out.append("{%% set c%d %%}%s{%% endset %%}" % (rng.below(3), sl_body(rng, depth + 1, blocks)))
+        elif depth < 3:
+            blocks[0] += 1
+            out.append("{%% block b%d %%}%s{%% endblock %%}" % (blocks[0], sl_body(rng, depth + 1, blocks)))
+        else:
+            out.append("x")
+    return "".join(out)
+
+
+def executed_stream(dump):
+    """main stream with every CallBlock followed by the stream of the block it renders (blocks of a template that
+    extends nothing are rendered once, where they are defined).  None when the stream has control flow."""
+    def walk(stream, seen):
+        out = []
+        for ins in stream:
+            op = ins.get("op")
+            if op in CONTROL:
+                return None
+            out.append(op)
+            if op == "CallBlock":
+                name = ins.get("arg")
+                if name in seen or name not in dump["blocks"]:
+                    return None
+                sub = walk(dump["blocks"][name], seen | {name})
+                if sub is None:
+                    return None
+                out += sub
+        return out
+    return walk(dump["main"], frozenset())
+
+
+def prun_plain(cmd, cases):
+    return prun(cmd, cases) if cases else []
+
+
+def cost_table_part(chk, tab, mj, insts, infos_by_inst, hook):
+    """Returns (violations[(what, replay, nfi)], coverage dict)."""
+    viol, cov = [], {}
+    ids = {n: i for i, n in enumerate(tab["names"])}
+    cost = tab["cost"]
+    # --- static: straight-line templates (no hook needed): consumed fuel = sum of the table over the dumped stream
+    nsl = 3000 if chk.thorough else 400
+    reqs, srcs = [], []
+    for _ in range(nsl):
+        src = sl_body(chk.rng, 0, [0])
+        srcs.append(src)
+        reqs.append({"templates": {"main": src}, "main": "main", "fuel": str(BIG), "ops": ["instructions", "fuel_levels"],
+                     "ctx": {"n": 3, "m": 2, "k": 1, "s": "a<b", "items": [0, 1, 2], "d": {"x": 3, "y": "why"}, "flag": True}})
+    sl_checked, sl_skipped, sl_errors = 0, 0, 0
+    seen_ops = collections.Counter()
+    for rel in (False, True):
+        res = run_prog(reqs, release=rel)
+        mcases, midx = [], []
+        for i, r in enumerate(res):
+            fl = r.get("fuel_levels") if isinstance(r, dict) else None
+            dump = r.get("instructions") if isinstance(r, dict) else None
+            if not fl or not dump or "levels" not in fl or "ok" not in fl:
+                sl_errors += 1     # the render failed (e.g. an undefined operation): levels are not observable
+                continue
+            ops = executed_stream(dump)
+            if ops is None or any(o not in ids for o in ops):
+                sl_skipped += 1
+                continue
+            consumed = int(fl["levels"][0])
+            expect = sum(cost[o] for o in ops)
+            if not rel:
+                for o in ops:
+                    seen_ops[o] += 1
+            sl_checked += 1
+            if consumed != expect or int(fl["levels"][1]) != BIG - consumed:
+                viol.append(("consumed fuel of a straight-line template differs from the sum of fuel_for_instruction over its instruction stream",
+                             {"theorem_or_correspondence": "GenFuelTable (translator of vm/fuel.rs) vs State::fuel_levels", "template": srcs[i], "stream": ops,
+                              "consumed": consumed, "table_sum": expect, "profile": "release" if rel else "debug"}, True))
+            mcases.append([BIG] + [ids[o] for o in ops]); midx.append((i, consumed))
+        mo = prun_plain([mj, "c13-trace"], mcases)
+        for (i, consumed), mc, o in zip(midx, mcases, mo):
+            if o != [0, consumed, BIG - consumed, len(mc) - 1, consumed] and not viol:
+                viol.append(("model cost of a straight-line stream differs from the engine's consumed fuel", {"theorem_or_correspondence": "C13.Runner.run_trace vs State::fuel_levels",
+                             "template": srcs[i], "model": o, "consumed": consumed}, True))
+    cov["straight_line"] = {"templates": nsl, "compared(debug+release)": sl_checked, "skipped_control_flow": sl_skipped, "render_failed": sl_errors}
+    # --- dynamic: executed instruction trace through the hook, for the whole program family
+    if not hook:
+        cov["trace_hook"] = False
+        cov["opcodes_exercised"] = sorted(seen_ops)
+        return viol, cov
+    cov["trace_hook"] = True
+    tr_cases = [list(inst) + [BIG] for inst in insts]
+    asked_n = 0
+    for rel in (False, True):
+        free = prun_plain([bin_path("c13_trace", rel)], tr_cases)
+        bcases, bmeta, mcases = [], [], []
+        for inst, o in zip(insts, free):
+            if not o or o[0] not in (0, 1):
+                viol.append(("trace run crashed", {"case": list(inst) + [BIG], "output": o[:6]}, False)); continue
+            names = o[4:] if o[0] == 0 else o[3:]
+            if any(x not in ids for x in names):
+                viol.append(("the VM executed an instruction the translator does not know", {"theorem_or_correspondence": "tools/fuel_table.py", "unknown": sorted(set(str(x) for x in names if x not in ids))}, True)); continue
+            if not rel:
+                for x in names:
+                    seen_ops[x] += 1
+            info = infos_by_inst.get(inst)
+            c = sum(cost[x] for x in names)
+            if o[0] == 0 and (o[1] != c or o[2] != BIG - c):
+                viol.append(("consumed fuel differs from the sum of fuel_for_instruction over the executed instruction trace",
+                             {"theorem_or_correspondence": "GenFuelTable vs executed trace", "case": list(inst) + [BIG], "consumed": o[1], "table_sum": c,
+                              "profile": "release" if rel else "debug"}, True)); continue
+            if info is not None and info["c"] != c:
+                viol.append(("cost located by the budget sweep differs from the table sum over the executed trace",
+                             {"theorem_or_correspondence": "GenFuelTable vs budget sweep", "case": list(inst) + [BIG], "sweep_cost": info["c"], "table_sum": c}, True)); continue
+            bs = sorted(set(b for b in [0, 1, 2, c // 3, c // 2, c - 1, c, c + 1, c + 2, 2**63, 2**64 - 1] if b >= 0))
+            for b in bs:
+                bcases.append(list(inst) + [b]); bmeta.append((names, c)); mcases.append([b] + [ids[x] for x in names])
+        outs = prun_plain([bin_path("c13_trace", rel)], bcases)
+        mo = prun_plain([mj, "c13-trace"], mcases)
+        for case, (names, c), o, m in zip(bcases, bmeta, outs, mo):
+            b = case[4]
+            asked_n += 1
+            got = o[4:] if o and o[0] == 0 else o[3:] if o and o[0] == 1 else None
+            # first principles: the budget run executes a prefix of the unlimited trace and stops at the first charged
+            # instruction with which consumption reaches the budget
+            acc, stop = 0, None
+            for j, x in enumerate(names):
+                if cost[x]:
+                    acc += cost[x]
+                    if acc >= b:
+                        stop = j + 1
+                        break
+            exp_ok = stop is None
+            exp_len = len(names) if stop is None else stop
+            fr_err = bool(o and o[0] == 1 and o[1] != 21)
+            ok = got is not None and got == names[:exp_len] and ((o[0] == 0) == exp_ok or (exp_ok and fr_err))
+            if ok and o[0] == 0:
+                ok = (o[1], o[2]) == (c, b - c)
+            if not ok:
+                viol.append(("under a budget the executed trace is not the predicted prefix of the unlimited trace",
+                             {"case": case, "describe": describe(case), "trace_len": None if got is None else len(got), "expected_len": exp_len,
+                              "expected_success": exp_ok, "output": o[:4], "profile": "release" if rel else "debug"}, False))
+            exp_m = [0 if exp_ok else 1, c if exp_ok else b, b - c if exp_ok else 0, exp_len, c]
+            if m != exp_m:
+                viol.append(("model of the tracker over the real cost sequence differs from the first-principles prediction",
+                             {"theorem_or_correspondence": "C13.Runner.run_trace / trace_threshold", "case": case, "model": m, "expected": exp_m}, True))
+    cov["trace_budget_cases"] = asked_n
+    cov["opcodes_exercised"] = sorted(seen_ops)
+    cov["opcodes_not_exercised"] = sorted(set(tab["names"]) - set(seen_ops))
+    return viol, cov
+
+
 def describe(case):
     p, n, m, k, b = case[:5]
     return {"program": "%d (%s)" % (p, FAMILY[p] if p < len(FAMILY) else "?"), "n": n, "m": m, "k": k, "budget": b}
@@ -206,14 +407,26 @@ def describe(case):
 
 def main():
     chk = Check("C13", "proof")
-    chk.cov["trusted_base"] = TRUSTED_COMMON + ["Print Assumptions: all nine theorems closed under the global context (no axioms)",
+    chk.cov["trusted_base"] = TRUSTED_COMMON + ["Print Assumptions: all eleven theorems closed under the global context (no axioms)",
+                                               "tools/fuel_table.py (translator vm/fuel.rs::fuel_for_instruction + enum Instruction -> C13/GenFuelTable.v; whitelisted arm syntax, fails on anything else); the table is compared with the engine's consumed fuel over dumped straight-line streams and, with the instruction hook, over the executed trace of every program of the family",
                                                "the render is abstract in the theorems (any deterministic step system); that eval_impl asks the one tracker before every instruction of every nested evaluation is established by the correspondence run (34 program shapes incl. macros, includes, inheritance), not by proof"]
     chk.assumptions = ["64-bit target (u64 fuel counter)", "templates do not branch on State::fuel_levels (no builtin does; the harness's probe() returns '')",
                        "modelled: FuelTracker::{new,track,remaining,consumed}, the per-instruction charge in eval_impl, State::fuel_levels; fuel_for_instruction is an arbitrary non-negative cost per instruction"]
+    try:
+        tab = fuel_table.generate(REPO, os.path.join(COQ, "theories", "C13", "GenFuelTable.v"))
+    except (fuel_table.TranslatorError, OSError) as ex:
+        chk.violation("the translator cannot read fuel_for_instruction / enum Instruction", {"theorem_or_correspondence": "tools/fuel_table.py", "error": str(ex)}, True)
+        chk.finish()
     ok_models, blog = build_models("C13")
     proofs_ok = chk.run_proofs()
     okc, clog = cargo_build(["c13"], release=False)
     okr, clog2 = cargo_build(["c13"], release=True)
+    has_feature = "verif_hooks" in open(os.path.join(REPO, "minijinja", "Cargo.toml")).read()
+    trace_hook = has_feature and "set_instruction_hook" in open(os.path.join(REPO, "minijinja", "src", "lib.rs")).read()
+    feats = ("hooks",) if has_feature else ()
+    for rel in (False, True):
+        okt, tlog = cargo_build(["c13_trace", "prog"], release=rel, features=feats)
+        okc, clog = okc and okt, clog + tlog
     if not (okc and okr):
         chk.violation("harness does not build against the current /repo tree", {"theorem_or_correspondence": "build of harness/src/bin/c13.rs", "log": (clog + clog2)[-1500:]}, True)
         chk.finish()
@@ -256,19 +469,18 @@ def main():
         for what, b in bad:
             literal_bad.append((what, list(infos[j]["inst"]) + [b], "release" if rel else "debug"))
         for top, b in wrapped:
-            # the error's root cause is OutOfFuel but the kind handed to the host is a wrapper's
-            k = chk.match_known(lambda e: e["match"]["error_root_kind"] == 21 and e["match"]["error_top_kind"] == top)
-            if k:
-                chk.known_finding(k["id"], k["what"])
-                wrapped_n[ERR_NAMES.get(top, str(top))] += 1
-            else:
-                literal_bad.append(("out-of-fuel failure is reported to the host with error kind %s" % ERR_NAMES.get(top, top),
-                                    list(infos[j]["inst"]) + [b], "release" if rel else "debug"))
+            # the root cause is OutOfFuel but the kind handed to the host is a wrapper's: "fails with an out-of-fuel error" is violated
+            literal_bad.append(("out-of-fuel failure is reported to the host with error kind %s (OutOfFuel only as source)" % ERR_NAMES.get(top, top),
+                                list(infos[j]["inst"]) + [b], "release" if rel else "debug"))
+            wrapped_n[ERR_NAMES.get(top, str(top))] += 1
     # --- exact oracle: the specification (threshold = cost + 1, or 0 for cost 0) on every case
     impn = {rel: [strip_top(o)[0] if o and o[0] != "CRASH" else o for o in imp[rel]] for rel in (False, True)}
     spec_bad = [(i, rel) for i in range(len(cases)) for rel in (False, True) if impn[rel][i] != spec[i]]
     model_vs_spec = [i for i in range(len(cases)) if mod[i] != spec[i]]
     mism = [(i, rel) for i in range(len(cases)) for rel in (False, True) if impn[rel][i] != mod[i]]
+    # --- cost-table part
+    ct_viol, ct_cov = ([], {}) if chk.replay else cost_table_part(chk, tab, os.path.join(EXTRACT, "C13", "mjmodel"), [x["inst"] for x in infos],
+                                                                  {x["inst"]: x for x in infos}, trace_hook)
     # --- coverage
     hist = collections.Counter()
     nontriv = set()
@@ -297,6 +509,7 @@ def main():
     chk.cov["samples"] = [dict(describe(cases[i]), cost=infos[owner[i]]["c"], implementation=imp[False][i][:12]) for i in pick]
     chk.cov["distribution"] = dict(hist)
     chk.cov["out_of_fuel_reported_with_wrapper_kind"] = dict(wrapped_n)
+    chk.cov["cost_table"] = dict(ct_cov, opcodes=len(tab["names"]), zero_cost=sorted(n for n in tab["names"] if tab["cost"][n] == 0))
     chk.cov["max_cost"] = max([x["c"] for x in infos] or [0])
     chk.cov["model_vs_spec_disagreements"] = len(model_vs_spec)
     chk.cov["impl_vs_model_disagreements"] = len(mism)
@@ -319,6 +532,8 @@ def main():
             old = model("c13-old-release" if rel else "c13-old-debug", [cases[i]])[0]
             rep["explained_by_isize_counter_model"] = (old[:3] == impn[rel][i][:3])
         chk.violation(what, rep)
+    for what, rp, nfi in ct_viol[:4]:
+        chk.violation(what, rp, nfi)
     if not literal_bad and not problems:
         if spec_bad:
             i, rel = spec_bad[0]
